@@ -17,6 +17,12 @@ Theorem C14_reduction_strips_listed_bijections_only :
   forallb (fun m => let '(n, s) := m in negb s || is_bij n) fn_strips = true.
 Proof. vm_compute. reflexivity. Qed.
 
+(* the functions whose result Map::schema_exprs declares unique on their own (Function::is_unique, regenerated on
+   every run) are the per-row generators only: no statement-stable function (clock, PI) is among them *)
+Theorem C14_fresh_functions_listed :
+  forallb (fun m => let '(n, _, u) := m in negb u || fresh_per_row n) fn_meta = true.
+Proof. vm_compute. reflexivity. Qed.
+
 (* every function stripped on the way from a projection to its column is one the code lists *)
 Theorem C14_chain_listed : forall e, Forall (fun f => is_bij f = true) (chain is_bij e).
 Proof. exact (chain_all_bij is_bij). Qed.
@@ -90,6 +96,7 @@ Proof. vm_compute. repeat split. Qed.
 Check C14_unique_preserved.
 Print Assumptions C14_no_lossy_bijection.
 Print Assumptions C14_reduction_strips_listed_bijections_only.
+Print Assumptions C14_fresh_functions_listed.
 Print Assumptions C14_chain_listed.
 Print Assumptions C14_unique_preserved.
 Print Assumptions C14_rounding_bijections_refuted.
